@@ -10,7 +10,8 @@ use std::time::Duration;
 
 use crate::cancel::Cancel;
 use crate::coroutine_impl::{
-    co_cancel_data, current_cancel_data, is_coroutine, run_coroutine, CoroutineImpl, EventSource,
+    co_cancel_data, co_get_handle, current_cancel_data, is_coroutine, run_coroutine, CoroutineImpl,
+    EventSource,
 };
 use crate::scheduler::get_scheduler;
 use crate::sync::atomic_dur::AtomicDuration;
@@ -212,6 +213,10 @@ impl Drop for Park {
 impl EventSource for Park {
     // register the coroutine to the park
     fn subscribe(&mut self, co: CoroutineImpl) {
+        // as soon as the coroutine is registered below it can be resumed by another
+        // thread, run to its end and be freed together with the cancel data that we
+        // still use afterwards: keep it alive with a handle
+        let _handle = co_get_handle(&co);
         let cancel = co_cancel_data(&co);
         // if we share the same park, the previous timer may wake up it by false
         // if we not deleted the timer in time
